@@ -54,6 +54,10 @@ pub struct LockStep {
     pub probes: bool,
     /// optional prefix fed (in lock-step) before the explored history
     pub seed: Option<&'static (dyn Fn(&Cfg) -> Vec<Cmd> + Sync)>,
+    /// deliver every command through `feed()` per character instead of `feed_str` (no call
+    /// boundaries between commands: whatever a terminal remembers "until the end of the call"
+    /// stays remembered)
+    pub via_feed: bool,
 }
 
 pub struct LSt {
@@ -89,6 +93,10 @@ pub fn resync(st: &mut LSt) -> bool {
 
 /// Apply one op to both; stops at the first non-Ok part.
 pub fn lock_apply(st: &mut LSt, op: &Op) -> Outcome {
+    lock_apply_via(st, op, false)
+}
+
+pub fn lock_apply_via(st: &mut LSt, op: &Op, via_feed: bool) -> Outcome {
     let mut parts = vec![];
     flatten(&op.cmd, &mut parts);
     let single = parts.len() == 1;
@@ -100,7 +108,13 @@ pub fn lock_apply(st: &mut LSt, op: &Op) -> Outcome {
             }
             ref p => {
                 let text = if single { op.text.clone() } else { p.spell(SP7) };
-                handed = Some(st.vt.feed_str(&text).scrollback.map(|l| crate::obs::row_obs(&l)).collect());
+                if via_feed {
+                    for ch in text.chars() {
+                        st.vt.feed(ch);
+                    }
+                } else {
+                    handed = Some(st.vt.feed_str(&text).scrollback.map(|l| crate::obs::row_obs(&l)).collect());
+                }
             }
         }
         let o = obs_full(&st.vt);
@@ -266,7 +280,7 @@ impl System for LockStep {
             }
             return;
         }
-        let res = lock_apply(st, op);
+        let res = lock_apply_via(st, op, self.via_feed);
         if out.is_none() {
             // replaying a history: reproduce what exploration did on a foreign divergence
             match &res {
